@@ -344,8 +344,11 @@ func (fr *frame) visit(instr ssa.Instruction) int {
 		if s == nil {
 			fr.set(instr, (*value)(nil))
 		} else {
-			// alias: build an array value sharing cells is impossible with value arrays; copy (documented limitation)
-			panic(unsupported{"SliceToArrayPointer"})
+			// the array value shares the slice's cells (reads and element stores alias correctly;
+			// a whole-array store through this pointer would not write back: documented limitation)
+			p := new(value)
+			*p = array(s[:n:n])
+			fr.set(instr, p)
 		}
 	case *ssa.MakeInterface:
 		fr.set(instr, iface{t: instr.X.Type(), v: fr.get(instr.X)})
